@@ -23,6 +23,7 @@ type ChildRun struct {
 	StartFailed string
 	Released    []Released
 	Results     [][]string
+	DoneSteps   map[int]bool // indices of steps whose RESULT line arrived
 	Exports     []map[string][3]int64
 	ExportErrs  []string
 	Events      int64
@@ -133,10 +134,15 @@ func RunChild(o ChildOpts, cmds []Cmd) (*ChildRun, error) {
 			run.Released = append(run.Released, r)
 		case "RESULT":
 			var m struct {
+				Step   int      `json:"step"`
 				States []string `json:"states"`
 			}
 			_ = json.Unmarshal(body, &m)
 			run.Results = append(run.Results, m.States)
+			if run.DoneSteps == nil {
+				run.DoneSteps = map[int]bool{}
+			}
+			run.DoneSteps[m.Step] = true
 		case "EXPORT":
 			var m map[string][3]int64
 			_ = json.Unmarshal(body, &m)
@@ -196,10 +202,24 @@ func tail(s string, n int) string {
 
 // ---------------------------------------------------------------------------------------------
 
+// stepCmds turns steps into child commands; consecutive single requests marked Par travel as one
+// "wave" and are sent concurrently.
 func stepCmds(steps []c01.Step) []Cmd {
 	out := make([]Cmd, 0, len(steps)+1)
-	for i := range steps {
-		out = append(out, Cmd{Op: "step", Step: &steps[i]})
+	single := func(s *c01.Step) bool { return s.Kind == "attest" || s.Kind == "propose" }
+	for i := 0; i < len(steps); {
+		j := i + 1
+		if single(&steps[i]) {
+			for j < len(steps) && steps[j].Par && single(&steps[j]) {
+				j++
+			}
+		}
+		if j-i > 1 {
+			out = append(out, Cmd{Op: "wave", Index: i, Steps: steps[i:j]})
+		} else {
+			out = append(out, Cmd{Op: "step", Index: i, Step: &steps[i]})
+		}
+		i = j
 	}
 
 	return out
@@ -389,7 +409,12 @@ func RunCrash(c *CrashCase, evlog []string) (*CrashOutcome, *vkit.Violation, err
 	}
 
 	// second lifetime: export, conflicting probes for everything released, then the rest of the history
-	done := len(run1.Results)
+	var rest []c01.Step
+	for i := range c.Steps {
+		if !run1.DoneSteps[i] {
+			rest = append(rest, c.Steps[i])
+		}
+	}
 	var cmds2 []Cmd
 	cmds2 = append(cmds2, Cmd{Op: "export"})
 	for i := range run1.Released {
@@ -397,9 +422,7 @@ func RunCrash(c *CrashCase, evlog []string) (*CrashOutcome, *vkit.Violation, err
 		o.ProbesSent += len(ps)
 		cmds2 = append(cmds2, stepCmds(ps)...)
 	}
-	if done < len(c.Steps) {
-		cmds2 = append(cmds2, stepCmds(c.Steps[done:])...)
-	}
+	cmds2 = append(cmds2, stepCmds(rest)...)
 	cmds2 = append(cmds2, Cmd{Op: "export"}, Cmd{Op: "quit"})
 	opts2 := ChildOpts{Dir: store, Procs: c.Procs, KillAt: -1}
 	if c.K2 >= 0 {
